@@ -29,6 +29,13 @@ CHECKS = {
         "(exclusive and shared foreign fcntl locks held by a separate process) and LockedLeftAlone / OthersProcessed are evaluated by TLC on the real inventories and call traces.",
    note="POSIX fcntl locks held by a helper process for the whole run; 4-file groups",
    tech="TLC model checking + exhaustive lock-subset replay on the real binary + TLC trace validation"),
+ "C08": dict(cat="model_checking", sec="5 C08",
+   text="Partition.tla states the keep/drop rule declaratively (sub-groups, lexicographic priority ranking, keep/drop patterns, top-up to max(1,n), inheritance from the report header). "
+        "TLC checks the consequences named in the property on every case of a small universe (MC_Partition) and is the oracle for seeded random cases: each case is materialised "
+        "(hard links, isolate roots, tied time ranks, nesting, patterns), real `group` then real `remove` (and --dry-run) run from the real command line, and the set of removed "
+        "paths must equal the set TLC computes from Partition.tla.",
+   note="sub-group members get equal times/depth; chained priorities read as lexicographic; only `remove` is used to observe the partition (the other operations share it)",
+   tech="TLC-evaluated declarative spec as oracle + randomized replay on the real binary"),
 }
 
 def main():
